@@ -128,7 +128,7 @@ func checkC10(c *Ctx) {
 	w := c.W
 	wGlobal = w
 	m := w.runner()
-	c.rule("C10.R1", "no blocking operation in any module function reachable synchronously from Next: receives only in selects with default, sends only to channels made in the same function with sufficient capacity, no sleep/wait", 6)
+	c.rule("C10.R1", "no blocking operation in any module function reachable synchronously from Next: receives only in selects with default, sends only to channels made in the same function with sufficient capacity, no sleep/wait", 3)
 	c.rule("C10.R2", "the command bridge invokes the host handler from a goroutine unless the invocation is entailed by `the handler returns a channel`", 2)
 	c.rule("C10.R3", "completion is consumed exactly once: in Next the receive arm clears the pending channel before any return and the default arm returns the waiting error with no effect; in the command executor the dispatched channel is received from or stored as pending, never both, never neither", 2)
 	c.rule("C10.R4", "exactly once: one dispatch per command statement; per bridge call the handler is invoked at most once and, if not at all, an error is reported; each arm of the handler goroutine reports completion exactly once and the arms cover every signature the gate accepts", 4)
@@ -704,6 +704,9 @@ func checkCommandBridge(c *Ctx) {
 			case *ast.CallExpr:
 				if isReflectCall(info, n) {
 					return []string{"INVOKE"}
+				}
+				if isFilledChanCtor(w, calleeOf(info, n)) {
+					return []string{"SEND"}
 				}
 			case *ast.GoStmt:
 				if lit, ok := n.Call.Fun.(*ast.FuncLit); ok {
@@ -1395,4 +1398,56 @@ func (w *World) escapingFuncs() []*ssa.Function {
 	}
 	sort.Slice(escapingCache, func(i, j int) bool { return escapingCache[i].String() < escapingCache[j].String() })
 	return escapingCache
+}
+
+// isFilledChanCtor: a module function whose whole body is `ch := make(chan T, k); ch <- <parameter>; return ch` with a
+// constant k >= 1 — a call of it is "a channel on which the argument has been sent".
+func isFilledChanCtor(w *World, callee *types.Func) bool {
+	if callee == nil {
+		return false
+	}
+	f := w.byObj[callee.Origin()]
+	if f == nil || f.Body == nil || len(f.Body.List) != 3 {
+		return false
+	}
+	info := f.Pkg.TypesInfo
+	as, ok := f.Body.List[0].(*ast.AssignStmt)
+	if !ok || as.Tok != token.DEFINE || len(as.Lhs) != 1 || len(as.Rhs) != 1 {
+		return false
+	}
+	mk, ok := unparen(as.Rhs[0]).(*ast.CallExpr)
+	if !ok || !isBuiltin(info, mk, "make") || len(mk.Args) != 2 {
+		return false
+	}
+	if tv, ok := info.Types[mk.Args[1]]; !ok || tv.Value == nil || tv.Value.Kind() != constant.Int {
+		return false
+	} else if k, _ := constant.Int64Val(tv.Value); k < 1 {
+		return false
+	}
+	ch := info.Defs[identOf(as.Lhs[0])]
+	send, ok := f.Body.List[1].(*ast.SendStmt)
+	if !ok || ch == nil || identOf(send.Chan) == nil || info.Uses[identOf(send.Chan)] != ch {
+		return false
+	}
+	if vid := identOf(send.Value); vid == nil {
+		return false
+	} else if v, ok := info.Uses[vid].(*types.Var); !ok || !isParamOf(f, v) {
+		return false
+	}
+	ret, ok := f.Body.List[2].(*ast.ReturnStmt)
+	return ok && len(ret.Results) == 1 && identOf(ret.Results[0]) != nil && info.Uses[identOf(ret.Results[0])] == ch
+}
+
+func isParamOf(f *Func, v *types.Var) bool {
+	if f.Decl == nil || f.Decl.Type.Params == nil {
+		return false
+	}
+	for _, fl := range f.Decl.Type.Params.List {
+		for _, nm := range fl.Names {
+			if f.Pkg.TypesInfo.Defs[nm] == v {
+				return true
+			}
+		}
+	}
+	return false
 }
